@@ -40,7 +40,7 @@ def generate(seed, tier):
             continue
         if rng.random() < 0.4:
             # a history on one object: the owner re-assigns parameters / initial values between solves
-            more = _history(rng, ref, name, theta, x0, t0, tmax, box, pos)
+            more = _history(rng, ref, name, theta, x0, t0, tmax, box, pos, first_solve=[o for o in ops if not o.get('long')][-1] if [o for o in ops if not o.get('long')] else None)
             if more is None:
                 continue
             ops = ops + more
@@ -54,11 +54,12 @@ def generate(seed, tier):
     raise core.HarnessError("no C02 case")
 
 
-def _history(rng, ref, name, theta, x0, t0, tmax, box, pos):
+def _history(rng, ref, name, theta, x0, t0, tmax, box, pos, first_solve=None):
     """1-3 rounds of (rebind; 1-2 solves).  Every solve is checked against the reference for the values current
     at that point; rounds whose reference leaves the bounded domain are dropped."""
     out = []
     cur_th, cur_x0, cur_t0 = list(theta), list(x0), t0
+    prev_solve = first_solve
     names = ref.param_names
     for _ in range(rng.randint(1, 3)):
         rb = {"op": "rebind"}
@@ -84,11 +85,15 @@ def _history(rng, ref, name, theta, x0, t0, tmax, box, pos):
             nt0 = rng.choice([cur_t0, cur_t0, cur_t0 + 0.5, 0.0, 1.25])
             rb.update({"x0": nx0, "t0": nt0, "t0_as": rng.choice(["numpy", "float"])})
         solves = solver.gen_solve_ops(rng, nt0, tmax, rng.randint(1, 2))
+        if prev_solve is not None and rng.random() < 0.4 and prev_solve["grid"][0] > nt0 + 1e-6:
+            # the very same grid (and entry point) as before the re-binding
+            solves[0] = dict(prev_solve)
         chk = [solver.safe_reference(ref, th, nx0, nt0, op["grid"]) for op in solves]
         if any(c is None for c in chk) or (name == "random" and min(c.min() for c in chk) < 0.0):
             continue
         out.append(rb)
         out.extend(solves)
+        prev_solve = solves[-1]
         cur_th, cur_x0, cur_t0 = th, nx0, nt0
     return out
 
